@@ -987,13 +987,17 @@ func func_IsEmpty(rtParams FunctionParameterTypes, val any) (any, error) {
 	}
 
 	value := reflect.ValueOf(val)
+	if !value.IsValid() {
+		// untyped nil has no type to take a zero value of; null counts as empty
+		return true, nil
+	}
 
 	// Get the zero value for the type of val
 	zeroValue := reflect.Zero(value.Type())
 	zeroValueAsInterface := zeroValue.Interface()
 
-	// Compare the value with the zero value
-	isEmpty := cmp.Equal(val, zeroValueAsInterface, cmpopts.EquateEmpty())
+	// Compare the value with the zero value (unexported fields are compared too, rather than panicking)
+	isEmpty := cmp.Equal(val, zeroValueAsInterface, cmpopts.EquateEmpty(), cmp.Exporter(func(reflect.Type) bool { return true }))
 
 	return isEmpty, nil
 }
